@@ -440,15 +440,42 @@ class sx_math(object):
         return getattr(_math, name)
 
 
+def _divisors(c):
+    c = abs(c)
+    return [d for d in range(1, c + 1) if c % d == 0]
+
+
 def gcd_model(a, b):
+    if isinstance(a, SInt) != isinstance(b, SInt):
+        # one argument concrete: the gcd is its largest divisor that divides the other
+        s_, c_ = (a, b) if isinstance(a, SInt) else (b, a)
+        if c_ == 0:
+            return abs(s_)
+        if abs(c_) <= 100000:
+            res = 1
+            for d in _divisors(c_):          # ascending: the last match wins
+                res = site((s_ % d) == 0, d, res)
+            return res
+    return _gcd_model_general(a, b)
+
+
+def _gcd_model_general(a, b):
     """math.gcd contract: returns g >= 0, g | a, g | b, and g = u*a + v*b
     (Bezout witnesses make it the greatest).  Bounded: BV/Int with fresh vars."""
     c = ctx()
-    g = sym_int(c.fresh("gcd"), 0, None)
-    u = sym_int(c.fresh("gcd_u"))
-    v = sym_int(c.fresh("gcd_v"))
-    ka = sym_int(c.fresh("gcd_ka"))
-    kb = sym_int(c.fresh("gcd_kb"))
+    big = None
+    try:
+        ia, ib = interval(a), interval(b)
+        vals = [abs(x) for x in ia + ib if x is not None]
+        if len(vals) == 4:
+            big = max(vals + [1])
+    except Exception:
+        big = None
+    g = sym_int(c.fresh("gcd"), 0, big)
+    u = sym_int(c.fresh("gcd_u"), None if big is None else -big, big)
+    v = sym_int(c.fresh("gcd_v"), None if big is None else -big, big)
+    ka = sym_int(c.fresh("gcd_ka"), None if big is None else -big, big)
+    kb = sym_int(c.fresh("gcd_kb"), None if big is None else -big, big)
     for e in (g * ka == a, g * kb == b, u * a + v * b == g):
         c.add(e.t if isinstance(e, SBool) else z3.BoolVal(bool(e)))
     return g
